@@ -5,6 +5,9 @@ coverage, different branch coverage), others are straight-line (a repeated call 
 
 import enum
 
+# the enum class is deliberately not listed: exported tests still refer to its members
+__all__ = ["Switch", "mode_of"]
+
 
 class Mode(enum.Enum):
     OFF = 0
